@@ -134,7 +134,7 @@ PROPS["C14"] = {
 PROPS["C20"] = {
     "level": "other",
     "technique": "obligations generated from the AST of name_natural_key (pattern and numeral table read from the literals, turned into SMT regular-expression queries), shape contracts for the two sort functions; bounded exhaustive ordering oracle",
-    "level_text": "Proved for every possible name: each token the split pattern can yield has a value (it is one of the numerals with a non-zero table value, or a non-empty run of decimal digits on which int() succeeds), so the key function never raises; the pattern has exactly one capturing group, so keys are positionally typed (text at even, int at odd positions) and tuple comparison is total; I/II/III/IV map to 1..4; every run of digits is one token; the output order key is (rank, natural key), so rank takes precedence. Bounded: that the resulting order is numeric-aware in the sense of the statement for whole names (tokenising oracle over all short names) and that an unloc sorts directly after its chromosome.",
+    "level_text": "Proved for every possible name: each token the split pattern can yield has a value (it is one of the numerals with a non-zero table value, or a non-empty run of decimal digits on which int() succeeds), so the key function never raises; the split has no limit (a third argument of re.split would be one); the pattern has exactly one capturing group, so keys are positionally typed (text at even, int at odd positions) and tuple comparison is total; I/II/III/IV map to 1..4; every run of digits is one token; the output order key is (rank, natural key), so rank takes precedence, and a scaffold built without a rank gets a number from the signature of Scaffold.__init__ (so the key of a parsed or reversed scaffold can be compared). Bounded: that the resulting order is numeric-aware in the sense of the statement for whole names (tokenising oracle over all short names) and that an unloc sorts directly after its chromosome.",
     "level_note": "Trusted: re.split with one capturing group alternates text and group matches; sorted/list.sort are stable total-preorder sorts; Python's \\d is read as [0-9] (int() also accepts the other Unicode decimal digits \\d matches). int() of a decimal string is modelled as always succeeding: CPython refuses strings of more than sys.get_int_max_str_digits() (4300) digits - names with such a digit run are the known finding C20-digit-run-over-int-limit, outside what the proof covers. smart_sort_scaffolds needs every rank to be an int (input validity).",
     "lemmas": [],
     "bounded": [("bounded.c20", {})],
@@ -156,8 +156,8 @@ PROPS["C16"] = {
 PROPS["C15"] = {
     "level": "other",
     "technique": "deductive verification of check_for_index_files over a ghost path model (existence, mtime), AST-level obligations for the atomic cache writer replace_file and its two users, invariant lemma over these contracts for histories / crash points / interference; bounded histories, crash injection and interleavings on the real code",
-    "level_text": "Proved: check_for_index_files returns true iff both cache files exist and both mtimes are strictly greater than the FASTA's (all paths, incl. FileNotFoundError for a missing FASTA); replace_file writes to a process-unique temporary name in the same directory and renames it onto the final name only after the file is closed; write_index and write_assembly write only through it; auto_load loads when accepted and otherwise runs run_indexing, which derives both caches from the current file and writes both. Lemma over these contracts: the per-file invariant 'exists and strictly newer => complete and current' is preserved by FASTA rewrites (monotone clock), deletions and atomic cache writes of any process, hence holds at every crash point and under interference, and an accepted cache is the current one.",
-    "level_note": "Trusted: file-system semantics (rename is atomic, completed operations persist, mtime of a new file is the clock at creation, monotone clock). load_index / load_assembly / index_fasta_file are covered by C04/C05 and the bounded tier. Real scheduling and power-loss reordering are out of reach.",
+    "level_text": "Proved: check_for_index_files returns true iff both cache files exist and both mtimes are strictly greater than the FASTA's (all paths, incl. FileNotFoundError for a missing FASTA); replace_file writes to a process-unique temporary name in the same directory and renames it onto the final name only after the file is closed; write_index and write_assembly write only through it; auto_load is verified path by path against a typestate protocol on the index object (ghost flags): it indexes the file afresh exactly when the cache is not accepted, and otherwise loads the index and then the assembly - load_assembly completes the assembly from the index (records without residues have no AGP line) and therefore requires the index to be loaded first; either way both are filled. run_indexing (shape of its straight-line body checked) derives both caches from the current file and writes both. Lemma over these contracts: the per-file invariant 'exists and strictly newer => complete and current' is preserved by FASTA rewrites (monotone clock), deletions and atomic cache writes of any process, hence holds at every crash point and under interference, and an accepted cache is the current one.",
+    "level_note": "Trusted: file-system semantics (rename is atomic, completed operations persist, mtime of a new file is the clock at creation, monotone clock). load_index and load_assembly are TRUSTED stubs (typestate, exceptions, frame; what they read is decided by C04/C05 and the bounded tier), as is the call-site contract of run_indexing. Real scheduling and power-loss reordering are out of reach.",
     "lemmas": ["c15_cache_invariant"],
     "bounded": [("bounded.c15", {})],
     "trusted": PREDICATE_TRUSTED + ["POSIX rename atomicity; Path.stat().st_mtime / Path.exists() read the ghost path model", "monotone clock: a rewritten FASTA gets an mtime not earlier than any existing cache file"],
